@@ -227,7 +227,12 @@ pub fn gen_num(rng: &mut Rng, kind: u8, v: f64, maxvars: usize, prefix: &str) ->
     match kind {
         0 => Num::F(Fx::new(v)),
         1 => {
-            let nv = rng.usize_in(1, maxvars.max(1));
+            // a dual number may carry no variable at all
+            let nv = if rng.chance(0.04) {
+                0
+            } else {
+                rng.usize_in(1, maxvars.max(1))
+            };
             let g = gen_names(rng, nv, prefix)
                 .into_iter()
                 .map(|n| (n, Fx::new(signed_coef(rng))))
@@ -235,11 +240,29 @@ pub fn gen_num(rng: &mut Rng, kind: u8, v: f64, maxvars: usize, prefix: &str) ->
             Num::D { v: Fx::new(v), g }
         }
         _ => {
-            let nv = rng.usize_in(1, maxvars.max(1));
-            let g: Vec<(String, Fx)> = gen_names(rng, nv, prefix)
+            let nv = if rng.chance(0.04) {
+                0
+            } else {
+                rng.usize_in(1, maxvars.max(1))
+            };
+            let mut g: Vec<(String, Fx)> = gen_names(rng, nv, prefix)
                 .into_iter()
                 .map(|n| (n, Fx::new(signed_coef(rng))))
                 .collect();
+            if nv >= 2 && rng.chance(0.1) {
+                // a function of the DIFFERENCE of two variables: gradient (c, -c) and Hessian
+                // k [[1,-1],[-1,1]], whose entries cancel exactly
+                let c = signed_coef(rng);
+                let k = signed_coef(rng) * v.abs().max(1e-3);
+                g[0].1 = Fx::new(c);
+                g[1].1 = Fx::new(-c);
+                let h = vec![
+                    (0, 0, Fx::new(k)),
+                    (0, 1, Fx::new(-k)),
+                    (1, 1, Fx::new(k)),
+                ];
+                return Num::D2 { v: Fx::new(v), g, h };
+            }
             let mut h = Vec::new();
             for i in 0..nv {
                 for j in i..nv {
